@@ -1,5 +1,7 @@
 import GoPlugin.Model.Handshake
+import GoPlugin.Model.Stdio
 /- REGENERATED from the go-plugin source on every run by /verif/extract — do not edit. -/
 namespace GoPlugin.Facts
 def handshake : Handshake.Params := ⟨true, true, 4, 50, 1⟩
+def stdio : Stdio.Params := ⟨1024, true, .stdout, .stderr, true, .out, .err, 0, 1, 0, 1⟩
 end GoPlugin.Facts
